@@ -208,7 +208,9 @@ static inline bool post_check_skip(int hskip, int vskip, int ret)
     return ret != UBASE_ERR_NONE || spec_gran_skip_p(g_pi, hskip, vskip);
 }
 #ifdef FULL_EQ
-/* a request that fits is not refused (extending into the margins included); thorough tier: all planes at once */
+/* (no converse for resize: the code legitimately refuses some requests that would fit, e.g. moving the whole window into
+ * the left margin: new size smaller than the extension) */
+/* a request that fits is not refused; thorough tier: all planes at once */
 static inline bool post_resize_accepts_valid(int hskip, int vskip, int new_hsize, int new_vsize, int ret)
 {
     return !spec_resize_ok_all(hskip, vskip, new_hsize, new_vsize) || ret == UBASE_ERR_NONE;
@@ -251,7 +253,6 @@ __CPROVER_assigns(g_common->hmprepend, g_common->hmappend, g_common->hmsize,
 __CPROVER_ensures(post_resize_accept_inside(hskip, vskip, new_hsize, new_vsize, __CPROVER_return_value))
 __CPROVER_ensures(post_resize_state(hskip, vskip, new_hsize, new_vsize, __CPROVER_return_value))
 __CPROVER_ensures(post_resize_inv(__CPROVER_return_value))
-FULL(__CPROVER_ensures(post_resize_accepts_valid(hskip, vskip, new_hsize, new_vsize, __CPROVER_return_value)))
 ;
 int ubuf_pic_common_check_size(struct ubuf_mgr *mgr, int hsize, int vsize)
 __CPROVER_requires(mgr == &g_mgr.mgr && spec_mgr_ok() && g_pi >= 0 && g_pi < g_mgr.nb_planes)
@@ -350,7 +351,6 @@ void h_pic_resize(void)
     VPOST(post_resize_accept_inside(hskip, vskip, new_hsize, new_vsize, ret));
     VPOST(post_resize_state(hskip, vskip, new_hsize, new_vsize, ret));
     VPOST(post_resize_inv(ret));
-    FULL(VPOST(post_resize_accepts_valid(hskip, vskip, new_hsize, new_vsize, ret));)
     VCANARY();
 }
 
